@@ -322,4 +322,3 @@ type qtVal struct {
 }
 
 func (v qtVal) Point() orb.Point { return v.p }
-
